@@ -24,9 +24,12 @@ TCS = [9, 11, 18, 20, 22]
 
 
 def judge(p):
-    fn, m0, m1, t0, t1, exp = p
+    fn, m0, m1, t0, t1, exp = p[:6]
     f = pms.adsb.position if fn == "position" else pms.adsb.airborne_position
-    r = call(f, m0, m1, ts_dec(t0), ts_dec(t1))
+    refs = tuple(p[6]) if len(p) > 6 and p[6] is not None else ()
+    # position() takes an optional receiver location (needed for surface pairs only): an airborne pair has a global
+    # solution, which must not depend on whether a location - near, far away or (0, 0) - is passed along
+    r = call(f, m0, m1, ts_dec(t0), ts_dec(t1), *refs)
     if exp == "no_exception":
         ok = r[0] == "ok" and (r[1] is None or (isinstance(r[1], tuple) and len(r[1]) == 2 and all(x == x for x in r[1])))
         return None if ok else "airborne:raises_or_malformed_at_a_transition_latitude:%s" % (r[1] if r[0] != "ok" else "shape")
@@ -128,9 +131,13 @@ def w_lats(arg):
                             continue
                         if exp[5] == "cross-band":
                             acc.c["different_NL_bands"] += 1
-                        s = judge((fn,) + args + (exp,))
+                        refs = None
+                        if fn == "position":
+                            refs = [None, (float(lat) + 0.2, float(lon) - 0.3), (0, 0), (-float(lat) / 2 + 10.0, 179.0)][(k // 3 + order) % 4]
+                        s = judge((fn,) + args + (exp, refs))
                         if s:
-                            acc.bad(s, {"p": [fn] + list(args) + [exp], "true": [float(lat), float(lon)], "disp_nm": [float(disp[0]), float(disp[1])]})
+                            acc.bad(s + (":with_receiver_location" if refs else ""),
+                                    {"p": [fn] + list(args) + [exp, refs], "true": [float(lat), float(lon)], "disp_nm": [float(disp[0]), float(disp[1])]})
                 if disp == (0, 0):
                     exp = expected(e0, e1, False)
                     if isinstance(exp, list) and exp[5] != "cross-band":
@@ -194,4 +201,6 @@ def run(ctx):
 
 def replay(case):
     s = judge(tuple(case["p"]))
-    return [(s, case)] if s else []
+    if not s:
+        return []
+    return [(s, case), (s + ":with_receiver_location", case)]
